@@ -22,7 +22,7 @@ HAS_VIRTUAL_TIME = False
 N = EC.N
 
 TIERS = {
-    "quick": {"runs": 560, "batch": 2, "ops": (4, 10), "wall_cap": 1500},
+    "quick": {"runs": 400, "batch": 2, "ops": (4, 10), "wall_cap": 1500},
     "thorough": {"runs": 12000, "batch": 8, "ops": (4, 40)},
 }
 
@@ -117,7 +117,11 @@ def plan(seed, tier="quick", index=0):
     classes = ["one", "n-1", "small", "small", "high", "random", "random", "random"]
     signers = [hex(_key(rng, rng.choice(classes))) for _ in range(nsign)]
     msgs = [rng.getrandbits(8 * l).to_bytes(l, "big").hex() if l else "" for l in [rng.choice([0, 1, 32, 33, 100]) for _ in range(3)]]
-    stratum = rng.choice(["random-tape", "boundary-draws", "crafted", "crafted", "repeats", "mixed", "concurrent"])
+    if nsign < 4 and rng.random() < 0.3:
+        # a key and its negation share the x coordinate of their public keys
+        signers.append(hex(N - int(rng.choice(signers), 16)))
+        nsign += 1
+    stratum = rng.choice(["random-tape", "boundary-draws", "crafted", "crafted", "repeats", "mixed", "concurrent", "entropy-fault"])
     if stratum == "concurrent":
         return _plan_concurrent(seed, rng, signers, msgs)
     ops = []
@@ -139,6 +143,12 @@ def plan(seed, tier="quick", index=0):
             if rng.random() < 0.5 and ops:
                 # same message under another key, or same key with another message
                 op["msg"] = ops[-1]["msg"] if rng.random() < 0.5 else op["msg"]
+        elif kind == "entropy-fault":
+            # the OS entropy source fails for a stretch of operations (the draw raises OSError)
+            if nops // 3 <= i < nops // 3 + max(2, nops // 2):
+                op["tape"] = ["RAISE"] * 8
+                op["signer"] = signer = 0 if rng.random() < 0.7 else signer
+                op["msg"] = rng.getrandbits(256).to_bytes(32, "big").hex()
         elif kind == "crafted":
             op["mode"] = "raw"
             k = rng.choice([1, 2, 3, N - 1, rng.randrange(1, N), rng.randrange(1, N)])
@@ -348,7 +358,12 @@ def _digest_class(z):
 def execute(scenario, tape=None, keep_events=False):
     if scenario["stratum"] == "concurrent":
         return _execute_concurrent(scenario, tape, keep_events)
-    bits, ecmath, keys, utils = mods()
+    mods()  # (OpenSSL binding, logging off)
+    from sim import callersim
+
+    # every run starts from a freshly imported package: state left in module-level caches
+    # by an earlier run of this worker must not leak into this one
+    bits, (ecmath, keys, utils) = callersim.fresh_bits()
     sc = scenario
     res = RunResult()
     res.stratum = sc["stratum"]
@@ -403,11 +418,16 @@ def execute(scenario, tape=None, keep_events=False):
             except HarnessError:
                 raise
             except Exception as e:
+                if "RAISE" in op["tape"] and faults.get("entropy-unavailable", 0):
+                    # under an injected entropy failure the call may fail; it must not return a bad signature
+                    probes.hit("refused-under-entropy-fault")
+                    log.add(i, "op", "refused", type(e).__name__)
+                    continue
                 viols.append(Violation("sign-raised", where + f" digest={feats['digest_class']}", f"{type(e).__name__}: {e}"[:300], feats))
                 log.add(i, "op", "raised", type(e).__name__)
                 continue
             drawn = ent.history[n_hist:]
-            if not drawn and ent.op_draws == 0:
+            if not drawn and ent.op_draws == 0 and "RAISE" not in op["tape"]:
                 # no entropy consumed: must be a deterministic implementation
                 ent.begin_op(op["tape"])
                 rs2, sig2 = do_sign()
